@@ -76,9 +76,14 @@ type Script struct {
 	// StorageCloseFails: the storage client's Close returns an error (a storage fault at shutdown; persistent queue only).
 	// Shutdown then reports that error — and must still have stopped everything.
 	StorageCloseFails bool `json:"storage_close_fails,omitempty"`
+	// StartFails: the storage extension refuses to serve the exporter, so its Start fails (persistent queue only).
+	// The Shutdown that follows a failed Start (the service calls it) must return normally and leave nothing running.
+	StartFails bool `json:"start_fails,omitempty"`
 }
 
 var errStorageClose = errors.New("injected storage close failure")
+
+var errStorageUnavailable = errors.New("injected: storage unavailable")
 
 var (
 	errPerm  = errors.New("scripted permanent failure")
@@ -339,6 +344,33 @@ func runInner(s *Script) (bool, *vt.Finding) {
 	exp, err := xh.NewExporter(s.Cfg.Signal, xh.NopSettings(), w.push, opts...)
 	if err != nil {
 		return false, vt.Failf("harness/new", "NewExporter: %v", err)
+	}
+	if s.StartFails && s.Cfg.Persistent {
+		rec.SetGetClientError(errStorageUnavailable)
+		if err := xh.StartThenCancel(exp, host); !errors.Is(err, errStorageUnavailable) {
+			return true, vt.Failf("start-error-not-reported", "Start returned %v although the storage extension refused to serve the exporter", err)
+		}
+		var sderr error
+		var pv any
+		ok, stacks := vt.WithWatchdog(15*time.Second, func() {
+			defer func() { pv = recover() }()
+			sderr = exp.Shutdown(context.Background())
+		})
+		if !ok {
+			return true, vt.Failf("shutdown-blocks/after-failed-start", "Shutdown after a failed Start did not return within 15s; cfg %+v\n%s", s.Cfg, trim(stacks))
+		}
+		if pv != nil {
+			return true, vt.Failf("shutdown-panics/after-failed-start", "Shutdown after a failed Start panicked: %v; cfg %+v", pv, s.Cfg)
+		}
+		_ = sderr
+		time.Sleep(3 * time.Millisecond)
+		if leakErr := goleak.Find(ignore, goleak.IgnoreAnyFunction("go.opentelemetry.io/collector/verifharness/vt.WithWatchdog.func1")); leakErr != nil {
+			if msg := leakErr.Error(); strings.Contains(msg, "exporterhelper") || strings.Contains(msg, "queuebatch") {
+				return true, vt.Failf("goroutine-leak/after-failed-start", "helper goroutines still running after the Shutdown that followed a failed Start: %s", trimLeak(msg))
+			}
+		}
+		cS.Class("start-fails-then-shutdown", fmt.Sprintf("legacy-batcher:%v", s.Cfg.LegacyMax > 0))
+		return true, nil
 	}
 	if err := xh.StartThenCancel(exp, host); err != nil {
 		return false, vt.Failf("harness/start", "Start: %v", err)
@@ -673,6 +705,7 @@ func gen(t *rapid.T) Script {
 	}
 	if c.Persistent {
 		s.StorageCloseFails = rapid.IntRange(0, 3).Draw(t, "storage_close_fails") == 0
+		s.StartFails = rapid.IntRange(0, 9).Draw(t, "start_fails") == 0
 	}
 	s.WaitPush = rapid.IntRange(0, 3).Draw(t, "wait_push")
 	s.DelayUS = rapid.SampledFrom([]int{0, 0, 50, 300, 2000}).Draw(t, "delay")
